@@ -146,9 +146,10 @@ class HObj:
     items: list = field(default_factory=list)  # list / set contents
     fields: dict = field(default_factory=dict)  # dict entries or object attributes
     setlike: bool = False  # list whose duplicates are collapsed (summarised accumulation)
+    default: Any = None  # collections.defaultdict factory (dict only)
 
     def clone(self) -> "HObj":
-        return HObj(self.kind, self.cls, list(self.items), dict(self.fields), self.setlike)
+        return HObj(self.kind, self.cls, list(self.items), dict(self.fields), self.setlike, self.default)
 
 
 @dataclass(frozen=True)
